@@ -165,14 +165,21 @@ func (p Precompile) RegisterToken(
 		StakingTotalAmount: sdkmath.NewInt(0),
 	}
 
-	if err := p.assetsKeeper.RegisterNewTokenAndSetTokenFeeder(ctx, &oInfo); err != nil {
+	// The asset and its oracle token/feeder are registered in one cache context that is written
+	// only if both succeed: a failure is reported as `false` by Run without reverting, so it must
+	// not leave an oracle token without its asset (or an asset without its oracle token).
+	// The asset is validated and stored first, because the oracle registration also updates the
+	// oracle's in-memory params cache (which a cache context cannot undo) as its very last step.
+	cc, writeFunc := ctx.CacheContext()
+	// this is where the magic happens
+	if err := p.assetsKeeper.SetStakingAssetInfo(cc, stakingAsset); err != nil {
 		return nil, err
 	}
 
-	// this is where the magic happens
-	if err := p.assetsKeeper.SetStakingAssetInfo(ctx, stakingAsset); err != nil {
+	if err := p.assetsKeeper.RegisterNewTokenAndSetTokenFeeder(cc, &oInfo); err != nil {
 		return nil, err
 	}
+	writeFunc()
 
 	return method.Outputs.Pack(true)
 }
